@@ -31,31 +31,73 @@ impl Write for Short {
     fn flush(&mut self) -> std::io::Result<()> { Ok(()) }
 }
 
-/// two packets (TINY then SMALL, symbolic contents), both modes, any acceptance pattern
+// ---- Codec::encode is replaced by a model that hands out frames of symbolic content (a 4-byte
+// and an 8-byte one) from static storage: Framed::write over Bytes produced by the real encoder does
+// not close once the transport may accept part of a frame (12-18 GB: symbolic-offset reads through
+// Bytes' tagged data pointer). What Codec::encode returns is the subject of C03; what this decides is
+// that Framed::write delivers whatever it returned, complete, contiguous and in call order.
+static mut FRAMES: [[u8; 8]; 2] = [[0; 8]; 2];
+static mut FLEN: [usize; 2] = [0; 2];
+static mut NEXT: usize = 0;
+pub fn model_encode(_this: &Codec, _msg: &insim::Packet) -> insim::Result<bytes::Bytes> {
+    unsafe {
+        let i = NEXT;
+        NEXT += 1;
+        kani::assume(i < 2);
+        Ok(bytes::Bytes::from_static(&FRAMES[i][..FLEN[i]]))
+    }
+}
+
+fn setup_frames() {
+    let f0: [u8; 8] = kani::any();
+    let f1: [u8; 8] = kani::any();
+    unsafe {
+        FRAMES[0] = f0;
+        FRAMES[1] = f1;
+        // concrete lengths (a symbolic slice length is what does not close): a 4-byte then an 8-byte frame
+        FLEN[0] = 4;
+        FLEN[1] = 8;
+    }
+}
+
+/// two packets, frames of 4 and 8 symbolic bytes, any acceptance pattern
 #[kani::proof]
-#[kani::unwind(14)]
+#[kani::unwind(10)]
 #[kani::stub(alloc::fmt::format, stub_format)]
+#[kani::stub(insim::net::Codec::encode, model_encode)]
 fn c06_blocking_short_writes() {
-    let compressed: bool = kani::any();
-    let mode = if compressed { Mode::Compressed } else { Mode::Uncompressed };
-    let mut f = Framed::new(Box::new(Short), Codec::new(mode));
-    let r1q: u8 = kani::any();
-    let r1 = f.write(Tiny { reqi: RequestId(r1q), subt: TinyType::Ping });
+    setup_frames();
+    let mut f = Framed::new(Box::new(Short), Codec::new(Mode::Compressed));
+    let r1 = f.write(Tiny { reqi: RequestId(1), subt: TinyType::Ping });
     let ok1 = r1.is_ok();
     std::mem::forget(r1);
-    let r2q: u8 = kani::any();
-    let on: bool = kani::any();
-    let r2 = f.write(Small { reqi: RequestId(r2q), subt: SmallType::Tms(on) });
+    let r2 = f.write(Small { reqi: RequestId(2), subt: SmallType::None });
     let ok2 = r2.is_ok();
     std::mem::forget(r2);
     std::mem::forget(f);
     assert!(ok1 && ok2, "C06:write succeeds on a transport that always makes progress");
     unsafe {
-        assert!(OUTLEN == 12, "C06:both frames reach the transport completely");
-        assert!(OUT[0] == if compressed { 1 } else { 4 } && OUT[1] == 3 && OUT[2] == r1q && OUT[3] == 3, "C06:first frame intact and first");
-        assert!(OUT[4] == if compressed { 2 } else { 8 } && OUT[5] == 4 && OUT[6] == r2q && OUT[7] == 4, "C06:second frame header contiguous after the first");
-        assert!(OUT[8] == on as u8 && OUT[9] == 0 && OUT[10] == 0 && OUT[11] == 0, "C06:second frame body intact");
+        assert!(NEXT == 2, "C06:each write encodes exactly once");
+        assert!(OUTLEN == FLEN[0] + FLEN[1], "C06:both frames reach the transport completely");
+        let i: usize = kani::any();
+        kani::assume(i < OUTLEN);
+        let expect = if i < FLEN[0] { FRAMES[0][i] } else { FRAMES[1][i - FLEN[0]] };
+        assert!(OUT[i] == expect, "C06:frames contiguous, intact and in call order");
         kani::cover!(CALLS == 12, "one byte accepted per call");
         kani::cover!(CALLS == 2, "whole frames accepted");
     }
+}
+
+/// vacuity twin: claims a single transport call per packet suffices
+#[kani::proof]
+#[kani::unwind(10)]
+#[kani::stub(alloc::fmt::format, stub_format)]
+#[kani::stub(insim::net::Codec::encode, model_encode)]
+fn c06_twin_must_fail() {
+    setup_frames();
+    let mut f = Framed::new(Box::new(Short), Codec::new(Mode::Compressed));
+    let r1 = f.write(Tiny { reqi: RequestId(1), subt: TinyType::Ping });
+    std::mem::forget(r1);
+    std::mem::forget(f);
+    unsafe { assert!(CALLS == 1, "TWIN:one transport call per packet"); }
 }
